@@ -24,6 +24,8 @@ def streams(tier, seed, n=None):
     n = n or COUNTS[tier]
     per = {"turchin": 0.25, "edit-dist": 0.3, "stub": 0.2, "sca": 0.15, "lexstat": 0.1}
     out = [("lex_corpus", corpus_cases())]
+    mod = 120 if tier == "quick" else 5          # the small scope: a seeded 1/120 sample, or 1/5 of it
+    out.append(("lex_small_scope", [c for i, c in enumerate(lx.exhaustive_cases()) if i % mod == seed % mod]))
     for m, share in per.items():
         out.append(("lex_" + m.replace("-", ""), [lx.gen_case(rng, methods=[m]) for _ in range(int(n * share))]))
     return out
@@ -73,11 +75,13 @@ def main(tier, seed, prop=PROP, prop_bits=PROP_BITS, run=None, n=None):
     if not proofs_ok and not total_prop:
         run.violation({"kind": "proof obligation broken", "no_longer_checks": pr["broken"], "log": pr["log"][-1500:]},
                       no_input=True)
-    c["rule"] = ("cases = (wordlist of 1-5 languages x 1-5 concepts with synonyms, missing cells, duplicate and "
+    c["rule"] = ("small scope (1 concept x 3 languages, cells empty/1/2 words from a pool of 3, + 1 word of another "
+                 "concept; turchin and edit-dist x 3 linkages x 2 threshold pairs; 26352 cases, of which a seeded 1/%d is "
+                 "run) + random cases = (wordlist of 1-5 languages x 1-5 concepts with synonyms, missing cells, duplicate and "
                  "near-duplicate words, unordered non-contiguous keys; method in turchin/edit-dist/sca/lexstat(fixed "
                  "scorer)/stub-oracle; linkage; two thresholds incl. thresholds equal to occurring distances). "
                  "Non-trivial = some concept with >=3 words is split into more than one but fewer than its number of "
-                 "words sets at one threshold; distinct by full input.")
+                 "words sets at one threshold; distinct by full input." % (120 if tier == "quick" else 5))
     c["exhaustive"] = False
     return run.finish()
 
